@@ -25,6 +25,8 @@ def bus_cases(tier, rnd):
     for i in range(n):
         fl = rnd.choice(FLAVOURS)
         cases.append(("gen%d-%s" % (i, fl),) + ag.gen_history(rnd, fl))
+    for i in range(n // 2):
+        cases.append(("burst%d" % i,) + ag.gen_burst(rnd))
     return cases
 
 
@@ -320,7 +322,33 @@ def run(ctx):
         "parser_cases": n_lines, "helper_invocations": n_helper,
         "wall": {"parsers": round(t1 - t0, 1), "helper": round(t2 - t1, 1), "bus": round(t3 - t2, 1)},
         "exhaustive": False,
+        "explanation": "PROVED (Coq, all histories, any policy, service tables naming well-known names): the bus's table of pending activations equals "
+                       "the ledger of calls that arrived and have not met their fate, per name in arrival order (C19_ledger); no call ever meets two fates "
+                       "(C19_one_fate); a process is started for a name only when nobody waits for it, one per step (C19_spawn_once); when the name is taken "
+                       "the forwarded messages are exactly the waiting auto-start calls of connected senders that policy admits, in arrival order, the refused "
+                       "ones get AccessDenied, StartServiceByName callers SUCCESS, nobody is left waiting (C19_held_once_in_order); exit != 0 / signal / exec "
+                       "failure and the timeout answer every waiter of the affected activations exactly once (C19_failure_each_waiter_once, "
+                       "C19_timeout_each_waiter_once), exit 0 is ignored; the helper calls execv only after the name check, for the first directory whose "
+                       "<name>.service loads, with Name equal to the argument, an Exec that parses and a User (C19_helper), the name has no '/' or NUL and, "
+                       "unless it starts with ':', satisfies the specification's grammar.  REFUTED with witnesses replayed on the daemon/helper: F19.1, F19.2, F19.3.  "
+                       "EXPLORED ONLY (correspondence run, not proved about the C code): that bus/activation.c, desktop-file.c, dbus-shell.c and "
+                       "activation-helper.c behave like the model: real dbus-daemon with generated service directories and scripted started processes "
+                       "(start log, take the name fast / late / never / another name, exit status, signal, unexecutable, unparsable Exec), concurrent callers of both kinds, "
+                       "real timeouts; dbus-daemon-launch-helper-for-tests on generated names and files; the two parsers in-process under ASan/UBSan.  "
+                       "NOT COVERED: out-of-memory paths and transaction cancel hooks, systemd activation, the real setuid helper's permission checks and user switch "
+                       "(abstract booleans in the model, compiled out of the test binary), service-file cache reloading, babysitter pipe protocol and fd inheritance.",
     })
+    rep.assumptions = [
+        "models coq/Activation/Activation.v and coq/Activation/Helper.v are hand-written after bus/activation.c, bus/dispatch.c, bus/services.c, bus/driver.c, "
+        "bus/activation-helper.c, bus/desktop-file.c, dbus/dbus-shell.c; tied to the code by the correspondence run only",
+        "policy is an abstract pair of predicates in the theorems; the correspondence run instantiates it with the three <deny> rules of harness/py/activation_impl.py (rule matching itself is C06's subject)",
+        "every RequestName carries DO_NOT_QUEUE (only the primary owner matters; queues are C04's subject); every event is fully processed before the next one is written",
+        "started processes are identified by the order in which the bus starts them; an exec failure is observed right after the start that caused it",
+        "time: only the activation timeout is real (%d ms in timed histories, 10 min otherwise); histories that differ are re-run once before they are reported" % 1500,
+        "the ghost outputs OGone (entry of a disconnected caller discarded) are not observable and not compared",
+        "the helper is observed through dbus-daemon-launch-helper-for-tests (same activation-helper.c, ACTIVATION_LAUNCHER_TEST: no clearenv, permission check and setuid compiled out)",
+        "known-finding entries are read from notes/C19.findings.json until merged into known-findings.json",
+    ]
     if stats["aborted"] > max(3, len(res) // 10):
         rep.violation("%d of %d activation histories could not be replayed on the daemon (harness aborted)" % (stats["aborted"], len(res)),
                       {"names": "harness", "example": [r["info"].get("aborted") for r in res if r["status"] == "aborted"][:3]}, found_input=False)
